@@ -2475,7 +2475,15 @@ FROM (
         on_clause = self._join_on_clause(id_names, "a", "b")
 
         if op == tokens.INTERSECT:
-            return f"SELECT a.* FROM ({a_sql}) AS a SEMI JOIN ({b_sql}) AS b ON {on_clause}"
+            # A key must be present in every operand: one SEMI JOIN per remaining operand
+            sql = f"SELECT a.* FROM ({a_sql}) AS a"
+            for i, other_sql in enumerate(child_sqls[1:]):
+                alias = "b" if i == 0 else f"b{i + 1}"
+                sql += (
+                    f" SEMI JOIN ({other_sql}) AS {alias} "
+                    f"ON {self._join_on_clause(id_names, 'a', alias)}"
+                )
+            return sql
         elif op == tokens.SETDIFF:
             return f"SELECT a.* FROM ({a_sql}) AS a ANTI JOIN ({b_sql}) AS b ON {on_clause}"
         elif op == tokens.SYMDIFF:
@@ -2487,11 +2495,15 @@ FROM (
             cte = CTEBuilder()
             cte.cte("_sd_a", a_sql, materialized=True)
             cte.cte("_sd_b", b_sql, materialized=True)
+            # UNION ALL is positional: take the columns of both sides by name, in the order of
+            # the first operand (the operands may declare their components in another order)
+            a_cols = ", ".join(f"a.{quote_name(c)}" for c in first_ds.components)
+            c_cols = ", ".join(f"c.{quote_name(c)}" for c in first_ds.components)
             return cte.select(
-                f"(SELECT a.* FROM _sd_a AS a "
+                f"(SELECT {a_cols} FROM _sd_a AS a "
                 f"ANTI JOIN _sd_b AS b ON {on_clause}) "
                 f"UNION ALL "
-                f"(SELECT c.* FROM _sd_b AS c "
+                f"(SELECT {c_cols} FROM _sd_b AS c "
                 f"ANTI JOIN _sd_a AS d ON {on_clause_rev})"
             )
 
